@@ -50,8 +50,11 @@ func (w *World) attCtx(voteFor *Node, slot common.Slot, index common.CommitteeIn
 	tslot, err := w.Spec.EpochStartSlot(ep)
 	must(err)
 	target := AncestorAt(voteFor, tslot)
-	st, epc, err := w.Advance(target, tslot)
+	st, live, err := w.Advance(target, tslot)
 	must(err)
+	// what an honest attester computes from the target state (not the node's long-lived context, which earlier
+	// validations may have touched)
+	epc := w.FreshContext(st, live)
 	count, err := epc.GetCommitteeCountPerSlot(ep)
 	must(err)
 	if uint64(index) >= count {
@@ -59,6 +62,7 @@ func (w *World) attCtx(voteFor *Node, slot common.Slot, index common.CommitteeIn
 	}
 	comm, err := epc.GetBeaconCommittee(slot, index)
 	must(err)
+	comm = append([]common.ValidatorIndex(nil), comm...)
 	subnet, err := phase0.ComputeSubnetForAttestation(w.Spec, count, slot, index)
 	must(err)
 	src := common.Checkpoint{Epoch: 0, Root: w.Genesis.Root}
@@ -68,6 +72,11 @@ func (w *World) attCtx(voteFor *Node, slot common.Slot, index common.CommitteeIn
 
 // SignAtt: the attestation of the committee members at `positions` for `data`, signed by `signers` under domain type dt.
 func (w *World) SignAtt(data phase0.AttestationData, nbits int, positions []int, signers []KeyNum, dt common.BLSDomainType) *phase0.Attestation {
+	return w.SignAttDom(data, nbits, positions, signers, w.DomainAt(dt, data.Target.Epoch))
+}
+
+// SignAttDom: the same under an explicit domain.
+func (w *World) SignAttDom(data phase0.AttestationData, nbits int, positions []int, signers []KeyNum, dom common.BLSDomain) *phase0.Attestation {
 	bits := make([]bool, nbits)
 	for _, p := range positions {
 		if p < nbits {
@@ -78,7 +87,6 @@ func (w *World) SignAtt(data phase0.AttestationData, nbits int, positions []int,
 	if len(signers) == 0 {
 		sig = infinitySig()
 	} else {
-		dom := w.DomainAt(dt, data.Target.Epoch)
 		sig = w.C.Sign(signers, common.ComputeSigningRoot(data.HashTreeRoot(hFn), dom))
 	}
 	return &phase0.Attestation{AggregationBits: bitlist(bits), Data: data, Signature: sig}
@@ -159,6 +167,9 @@ func (g *Gen) genAttestations(sc *Scenario, views []*View) {
 		if cur > 32 {
 			lo = cur - 32
 		}
+		if g.attWindow != 0 && cur > g.attWindow {
+			lo = cur - g.attWindow
+		}
 		var sampleCtx *AttCtx
 		for s := lo; s <= cur; s++ {
 			voteFor := AncestorAt(head, s)
@@ -196,6 +207,9 @@ func (g *Gen) genAttestations(sc *Scenario, views []*View) {
 		g.attCase("sig-other-key", v, ctx.Subnet, w.SignAtt(d, n, []int{m}, []KeyNum{k + 1}, common.DOMAIN_BEACON_ATTESTER))
 		g.attCase("sig-other-member", v, ctx.Subnet, w.SignAtt(d, n, []int{m}, []KeyNum{w.KeyOf(ctx.Committee[(m+1)%n])}, common.DOMAIN_BEACON_ATTESTER))
 		g.attCase("sig-wrong-domain", v, ctx.Subnet, w.SignAtt(d, n, []int{m}, []KeyNum{k}, common.DOMAIN_BEACON_PROPOSER))
+		if adj, ok := w.AdjacentForkEpoch(d.Target.Epoch); ok {
+			g.attCase("sig-domain-of-adjacent-fork", v, ctx.Subnet, w.SignAttDom(d, n, []int{m}, []KeyNum{k}, w.DomainAt(common.DOMAIN_BEACON_ATTESTER, adj)))
+		}
 		g.attCase("sig-aggregate-of-two", v, ctx.Subnet, w.SignAtt(d, n, []int{m}, []KeyNum{k, k + 1}, common.DOMAIN_BEACON_ATTESTER))
 		{
 			a := honest()
@@ -404,17 +418,28 @@ type AggOpts struct {
 	AttDT          common.BLSDomainType
 	NBits          int
 	MutateAfterSig func(m *phase0.AggregateAndProof)
+	// when set: the respective domain is the one of the fork version in force at that epoch (world's fork schedule)
+	AttEp, SelEp, OuterEp *common.Epoch
 }
 
 func (w *World) MakeAggregate(ctx *AttCtx, d phase0.AttestationData, o AggOpts) *phase0.SignedAggregateAndProof {
 	att := w.SignAtt(d, o.NBits, o.Positions, o.Signers, o.AttDT)
+	if o.AttEp != nil {
+		att = w.SignAttDom(d, o.NBits, o.Positions, o.Signers, w.DomainAt(o.AttDT, *o.AttEp))
+	}
 	// the state-derived domains of the target state
 	selDom, err := common.GetDomain(ctx.TState, o.SelectionDT, w.Spec.SlotToEpoch(o.SelectionSlot))
 	must(err)
+	if o.SelEp != nil {
+		selDom = w.DomainAt(o.SelectionDT, *o.SelEp)
+	}
 	sel := w.C.Sign1(o.AggKey, common.ComputeSigningRoot(o.SelectionSlot.HashTreeRoot(hFn), selDom))
 	msg := phase0.AggregateAndProof{AggregatorIndex: o.Aggregator, Aggregate: *att, SelectionProof: sel}
 	outerDom, err := common.GetDomain(ctx.TState, o.OuterDT, d.Target.Epoch)
 	must(err)
+	if o.OuterEp != nil {
+		outerDom = w.DomainAt(o.OuterDT, *o.OuterEp)
+	}
 	sig := w.C.Sign1(o.AggKey, common.ComputeSigningRoot(msg.HashTreeRoot(w.Spec, hFn), outerDom))
 	if o.MutateAfterSig != nil {
 		o.MutateAfterSig(&msg)
@@ -471,6 +496,9 @@ func (g *Gen) genAggregates(sc *Scenario, views []*View) {
 		lo := common.Slot(0)
 		if cur > 32 {
 			lo = cur - 32
+		}
+		if g.attWindow != 0 && cur > g.attWindow {
+			lo = cur - g.attWindow
 		}
 		var sampleCtx *AttCtx
 		for s := lo; s <= cur; s++ {
@@ -589,6 +617,13 @@ func (g *Gen) genAggregates(sc *Scenario, views []*View) {
 		g.aggCase("aggregate-sig-missing-signer", v, mk(func(o *AggOpts) { o.Signers = o.Signers[1:] }))
 		g.aggCase("aggregate-sig-extra-signer", v, mk(func(o *AggOpts) { o.Positions = o.Positions[1:] }))
 		g.aggCase("aggregate-sig-wrong-domain", v, mk(func(o *AggOpts) { o.AttDT = common.DOMAIN_BEACON_PROPOSER }))
+		if adj, ok := w.AdjacentForkEpoch(d.Target.Epoch); ok {
+			// the right domain types under the fork version of the neighbouring epoch
+			g.aggCase("aggregate-sig-domain-of-adjacent-fork", v, mk(func(o *AggOpts) { o.AttEp = &adj }))
+			g.aggCase("selection-proof-domain-of-adjacent-fork", v, mk(func(o *AggOpts) { o.SelEp = &adj }))
+			g.aggCase("outer-sig-domain-of-adjacent-fork", v, mk(func(o *AggOpts) { o.OuterEp = &adj }))
+			g.aggCase("all-sigs-domain-of-adjacent-fork", v, mk(func(o *AggOpts) { o.AttEp, o.SelEp, o.OuterEp = &adj, &adj, &adj }))
+		}
 		g.aggCase("aggregate-no-participants", v, mk(func(o *AggOpts) { o.Positions = nil; o.Signers = nil }))
 		g.aggCase("aggregate-single-participant", v, mk(func(o *AggOpts) { o.Positions = []int{p}; o.Signers = []KeyNum{aggKey} }))
 		g.aggCase("aggregate-bits-too-long", v, mk(func(o *AggOpts) { o.NBits = n + 1 }))
